@@ -1,21 +1,31 @@
-"""Seeded random eqlog programs over the feature set of the kernels (types, preds, funcs, joins, repeated
-variables, nested terms, then-equalities, `!`).  Kept only if the real compiler accepts them (see pipeline.Corpus)."""
+"""Seeded random eqlog programs over the feature set of the kernels and beyond: several types (incl. a type no relation
+mentions), predicates of arity 0-3, functions of arity 1-2, an enum with a nullary and a binary constructor, premises of
+1-4 atoms with shared and independent variables, wildcards, repeated variables, nested terms, `if t!`, several
+then-statements (tuples, equalities, `t!`, `v := t!`), match.  Kept only if the real compiler accepts them and the
+reference parser understands them (see pipeline.Corpus)."""
 import random
-
-VARS = ["x", "y", "z", "w"]
 
 
 def random_program(rng):
     ntypes = rng.choice([1, 1, 2])
     types = ["P", "Q"][:ntypes]
     lines = ["type %s;" % t for t in types]
-    preds = {}
-    funcs = {}
-    for i in range(rng.randint(1, 2)):
-        ar = rng.choice([1, 2, 2, 3])
+    if rng.random() < 0.2:
+        lines.append("type Tag;")          # a type no relation mentions
+    preds, funcs = {}, {}
+    for i in range(rng.randint(1, 3)):
+        ar = rng.choice([0, 1, 2, 2, 2, 3])
         preds["r%s" % "abc"[i]] = [rng.choice(types) for _ in range(ar)]
-    for i in range(rng.randint(0, 1)):
-        funcs["f%s" % "abc"[i]] = ([rng.choice(types) for _ in range(rng.choice([1, 1, 2]))], rng.choice(types))
+    for i in range(rng.choice([0, 1, 1, 2])):
+        funcs["f%s" % "ab"[i]] = ([rng.choice(types) for _ in range(rng.choice([1, 2, 2]))], rng.choice(types))
+    enum = None
+    if rng.random() < 0.2:
+        a1, a2 = rng.choice(types + ["E"]), rng.choice(types + ["E"])
+        enum = ("E", [("Ca", []), ("Cb", [a1, a2])])
+        lines.append("enum E { Ca(), Cb(%s, %s) }" % (a1, a2))
+        types = types + ["E"]
+        if rng.random() < 0.7:
+            preds["re"] = ["E"] + ([rng.choice(types)] if rng.random() < 0.5 else [])
     for n, a in preds.items():
         lines.append("pred %s(%s);" % (n, ", ".join(a)))
     for n, (a, r) in funcs.items():
@@ -23,45 +33,93 @@ def random_program(rng):
     rels = dict(preds)
     for n, (a, r) in funcs.items():
         rels[n] = a + [r]
-    for ri in range(rng.randint(1, 2)):
-        # premise: 1-3 atoms over a small variable pool per type
-        vt = {}
-        pool = {t: [v + t.lower() for v in VARS[:3]] for t in types}
-        prem = []
-        used = []
-        for _ in range(rng.randint(1, 3)):
-            n = rng.choice(sorted(rels))
-            args = [rng.choice(pool[t]) for t in rels[n]]
-            used += args
-            if n in preds:
-                prem.append("if %s(%s);" % (n, ", ".join(args)))
-            else:
-                prem.append("if %s = %s(%s);" % (args[-1], n, ", ".join(args[:-1])))
-        # every variable must occur twice somewhere in the rule or be replaced by a wildcard: conclusions reuse them
+    ctor_rels = {}
+    if enum:
+        for cn, args in enum[1]:
+            ctor_rels[cn] = args + ["E"]
+    nrules = rng.randint(1, 3)
+    for ri in range(nrules):
+        pool = {t: ["%s%s" % (t.lower(), "abc"[i]) for i in range(3)] for t in types}
+        atoms = []         # (kind, name, args)  kind in pred/func/ctor
+        natoms = rng.choice([1, 2, 2, 3, 3, 4])
+        for _ in range(natoms):
+            cands = sorted(rels) + sorted(ctor_rels)
+            n = rng.choice(cands)
+            sig = rels[n] if n in rels else ctor_rels[n]
+            args = [rng.choice(pool[t]) for t in sig]
+            atoms.append(("pred" if n in preds else "func", n, args, sig))
+        # conclusions over the premise variables
+        used = [v for a in atoms for v in a[2]]
         vs = sorted(set(used))
+        vtype = {}
+        for a in atoms:
+            for v, t in zip(a[2], a[3]):
+                vtype[v] = t
+        bytype = {t: [v for v in vs if vtype[v] == t] for t in types}
         concl = []
-        kind = rng.random()
-        bytype = {t: [v for v in vs if v.endswith(t.lower())] for t in types}
-        if kind < 0.5:
-            n = rng.choice(sorted(preds))
-            if all(bytype[t] for t in preds[n]):
-                concl.append("then %s(%s);" % (n, ", ".join(rng.choice(bytype[t]) for t in preds[n])))
-        elif kind < 0.75:
-            t = rng.choice(types)
-            if len(bytype[t]) >= 2:
-                a, b = rng.sample(bytype[t], 2)
-                concl.append("then %s = %s;" % (a, b))
-        elif funcs:
-            n = rng.choice(sorted(funcs))
-            a, r = funcs[n]
-            if all(bytype[t] for t in a):
-                concl.append("then %s(%s)!;" % (n, ", ".join(rng.choice(bytype[t]) for t in a)))
+        cvars = []
+        for _ in range(rng.choice([1, 1, 2])):
+            kind = rng.random()
+            if kind < 0.5 and preds:
+                n = rng.choice(sorted(preds))
+                if all(bytype[t] for t in preds[n]):
+                    args = [rng.choice(bytype[t]) for t in preds[n]]
+                    concl.append("then %s(%s);" % (n, ", ".join(args)))
+                    cvars += args
+            elif kind < 0.7:
+                t = rng.choice(types)
+                if len(bytype[t]) >= 2:
+                    a, b = rng.sample(bytype[t], 2)
+                    concl.append("then %s = %s;" % (a, b))
+                    cvars += [a, b]
+            elif funcs:
+                n = rng.choice(sorted(funcs))
+                a, r = funcs[n]
+                if all(bytype[t] for t in a):
+                    args = [rng.choice(bytype[t]) for t in a]
+                    cvars += args
+                    if rng.random() < 0.5 or not [p for p in preds if preds[p] == [r]]:
+                        concl.append("then %s(%s)!;" % (n, ", ".join(args)))
+                    else:
+                        p = rng.choice([p for p in preds if preds[p] == [r]])
+                        concl.append("then nv := %s(%s)!; then %s(nv);" % (n, ", ".join(args), p))
         if not concl:
             continue
+        # variables that occur exactly once in the whole rule become wildcards (premise only)
+        count = {}
+        for v in used + cvars:
+            count[v] = count.get(v, 0) + 1
+        prem = []
+        for kind, n, args, sig in atoms:
+            shown = [("_" if count[v] == 1 else v) for v in args]
+            if kind == "pred":
+                prem.append("if %s(%s);" % (n, ", ".join(shown)))
+            else:
+                res = shown[-1]
+                call = "%s(%s)" % (n, ", ".join(shown[:-1]))
+                if res == "_":
+                    prem.append("if %s!;" % call)
+                else:
+                    prem.append("if %s = %s;" % (res, call))
         lines.append("rule r%s { %s %s }" % ("xyz"[ri], " ".join(prem), " ".join(concl)))
+    if enum and rng.random() < 0.6 and preds:
+        unary = [p for p in preds if len(preds[p]) == 1]
+        if unary:
+            p = rng.choice(unary)
+            t = preds[p][0]
+            a1, a2 = enum[1][1][1]
+            bind = ["xa", "xb"]
+            usable = [b for b, ty in zip(bind, (a1, a2)) if ty == t]
+            if usable:
+                keep = rng.choice(usable)
+                pats = [b if b == keep else "_" for b in bind]
+                lines.append("rule rm { if e: E; match e { Ca() => {} Cb(%s, %s) => { then %s(%s); } } }" % (pats[0], pats[1], p, keep))
+    if not any(l.startswith("rule") for l in lines):
+        return None
     return "\n".join(lines) + "\n"
 
 
 def random_programs(seed, n):
     rng = random.Random(seed)
-    return [random_program(rng) for _ in range(4 * n)][: 4 * n]
+    out = [random_program(rng) for _ in range(10 * n)]
+    return [p for p in out if p is not None]
